@@ -15,6 +15,7 @@ The module's predicted class (ok / syntax / semantic / ...) is compared too, as 
 from __future__ import annotations
 
 import json
+import os
 import random
 from concurrent.futures import ThreadPoolExecutor
 
@@ -24,6 +25,12 @@ from ..drive import metagrammar as mg
 PID = "C23"
 C23_DEVS = ["BadRegexTypeError", "BadEscapeUnicodeError", "AliasCycleRecursionError",
             "UnorderedGroupOnRuleRef", "AsgnPrefixedRuleName", "WsParamWithoutValue"]
+
+
+def _open_findings():
+    """The listed open findings; VT_FINDINGS_OFF=1 tries none (to confirm repairs: every
+    former KNOWN-FINDING case must then pass, or it is a VIOLATION)."""
+    return [] if os.environ.get("VT_FINDINGS_OFF") else common.open_findings(PID)
 
 
 def _judge_one(c, o, r, fid_of):
@@ -40,7 +47,7 @@ def _judge_one(c, o, r, fid_of):
 def run(rep):
     quick = rep.tier == "quick"
     rng = random.Random(rep.seed)
-    findings = common.open_findings(PID)
+    findings = _open_findings()
     fid_of = {f["deviation"]: f["id"] for f in findings if f["deviation"] in C23_DEVS}
     rep.rule = ("corpus = every token sequence TLC derives from MetaGrammar's productions within the budgets + "
                 "one-token deletions, duplications, replacements, comment insertions + targeted semantic breakage "
@@ -136,7 +143,7 @@ def replay(path):
         c["text"] = case["text"]
     if case.get("kw"):
         c["kw"] = case["kw"]
-    findings = common.open_findings(PID)
+    findings = _open_findings()
     fid_of = {f["deviation"]: f["id"] for f in findings if f["deviation"] in C23_DEVS}
     o = mg.observe_one(c, ("mm",))
     orc, _ = mg.oracle([c], sorted(fid_of))
